@@ -1704,16 +1704,16 @@ func (this *Reader) processBlock() (int64, error) {
 				continue
 			}
 
+			if r.err != nil {
+				return 0, r.err
+			}
+
 			if r.decoded > this.blockSize {
 				errMsg := fmt.Sprintf("Block %d incorrectly decompressed", r.blockID)
-				return decoded, &IOError{msg: errMsg, code: kanzi.ERR_PROCESS_BLOCK}
+				return 0, &IOError{msg: errMsg, code: kanzi.ERR_PROCESS_BLOCK}
 			}
 
 			decoded += int64(r.decoded)
-
-			if r.err != nil {
-				return decoded, r.err
-			}
 
 			copy(this.buffers[n].Buf, r.data[0:r.decoded])
 			n++
